@@ -60,7 +60,8 @@ def scenarios(rng, root):
     def reader_getitem(outdir):
         pck = PlotfileCooker(p3)
         nb = len(pf3.levels[lv].boxes)
-        return [pck[keys3[0]][lv][:], pck[[0, len(keys3) - 1]][lv][list(range(nb))[::-1]], pck[0:2][lv][[True] * nb]]
+        return [pck[keys3[0]][lv][:], pck[[0, len(keys3) - 1]][lv][list(range(nb))[::-1]], pck[0:2][lv][[True] * nb],
+                pck[[1, len(keys3) - 1]][lv][:], pck[[len(keys3) - 1]][lv][list(range(nb))]]
     sc.append(('reader selections', reader_getitem, False))
 
     def reader_iter(outdir):
